@@ -622,7 +622,10 @@ class Gen:
                         # `any(x)` with a bare value is an index-expression argument
                         if "each" in inner[1]:
                             return self.gen_cmp(vec, depth)
-                        return ("qi", q, inner[1])
+                        if inner[1][0] == "field" and ty_index(self.sch.fields[inner[1][1]][1], inner[1][2:]) == arr("bool"):
+                            return ("qi", q, inner[1])
+                        # a bare Map(Bool) (or a call result) is only a boolean array once parenthesised
+                        return ("ql", q, ("paren", inner))
                     return ("ql", q, inner)
         return self.gen_cmp(vec, depth)
 
@@ -684,3 +687,77 @@ def count_nodes(e, kinds):
 def exec_case(sch, ast, ctxs, lay=None, kind="exec"):
     text = (render_lexpr if kind == "exec" else render_iexpr)(sch, ast, lay or Layout())
     return to_sexp((kind, sch.sexp(), text.encode(), ast) + tuple(ctxs)), text
+
+
+# ---------------------------------------------------------------- shrinking on the AST
+
+def ast_variants(e):
+    """smaller variants of an AST node (same syntactic category)"""
+    if not isinstance(e, tuple) or not e:
+        return
+    k = e[0]
+    if k == "comb":
+        items = e[2:]
+        for i in range(len(items)):
+            yield items[i]
+        if len(items) > 2:
+            for i in range(len(items)):
+                yield e[:2] + items[:i] + items[i + 1:]
+        for i in range(len(items)):
+            for v in ast_variants(items[i]):
+                yield e[:2] + items[:i] + (v,) + items[i + 1:]
+    elif k in ("paren", "not"):
+        yield e[1]
+        for v in ast_variants(e[1]):
+            yield (k, v)
+    elif k == "ql":
+        for v in ast_variants(e[2]):
+            yield (k, e[1], v)
+    elif k == "qi":
+        for v in ast_variants(e[2]):
+            yield (k, e[1], v)
+    elif k == "cmp":
+        for v in ast_variants(e[1]):
+            yield (k, v, e[2])
+        op = e[2]
+        if isinstance(op, tuple) and op[0] in ("in-int", "in-ip", "in-bytes") and len(op[1]) > 0:
+            for i in range(len(op[1])):
+                yield (k, e[1], (op[0], op[1][:i] + op[1][i + 1:]))
+    elif k == "field":
+        idx = e[2:]
+        for i in range(len(idx)):
+            yield e[:2] + idx[:i] + idx[i + 1:]
+    elif k == "call":
+        args = e[2]
+        idx = e[3:]
+        for i in range(len(idx)):
+            yield e[:3] + idx[:i] + idx[i + 1:]
+        for i in range(len(args)):
+            a = args[i]
+            if a[0] == "ai":
+                yield a[1]  # the argument itself replaces the call
+                for v in ast_variants(a[1]):
+                    yield e[:2] + (args[:i] + (("ai", v),) + args[i + 1:],) + idx
+            elif a[0] == "al":
+                for v in ast_variants(a[1]):
+                    yield e[:2] + (args[:i] + (("al", v),) + args[i + 1:],) + idx
+
+
+def shrink_ast(ast, fails, budget=300):
+    best = ast
+    tried = 0
+    progress = True
+    while progress and tried < budget:
+        progress = False
+        for v in ast_variants(best):
+            tried += 1
+            if tried >= budget:
+                break
+            try:
+                if fails(v):
+                    best = v
+                    progress = True
+                    break
+            except Exception:
+                pass
+    return best
